@@ -488,6 +488,17 @@ def _clauses(prog, fm: FuncModel, spec: dict | None):
                         for el, cnd in col:
                             out.append((c, el, logic.And(outer, cnd), cn))
                         continue
+            # the whole program handed over at once: ctl.add("\n".join(rules))  (statements end with '.', white space
+            # between them has no meaning)
+            if isinstance(a, ast.Call) and isinstance(a.func, ast.Attribute) and a.func.attr == "join" and len(a.args) == 1 \
+                    and isinstance(a.func.value, ast.Constant) and isinstance(a.func.value.value, str) \
+                    and a.func.value.value.strip() == "" and a.func.value.value != "":
+                col = se.collection(a.args[0], cn)
+                if col:
+                    outer = se.cond(cn)
+                    for el, cnd in col:
+                        out.append((c, el, logic.And(outer, cnd), cn))
+                    continue
             t = a.value if isinstance(a, ast.Constant) and isinstance(a.value, str) else se.val(a, cn)
             out.append((c, t, se.cond(cn), cn))
     return out, se, g
